@@ -4,7 +4,9 @@
    the readers must return the normalised chunks (FormatSpec) and re-formatting must give the
    same bytes.  A failure is tagged known=F5 / known=F6 only if the pinned model reproduces the
    implementation's whole output on that input, the Gen facts are the pinned ones, and the model
-   with exactly that switch repaired passes the same check. *)
+   with exactly that switch repaired passes the same check.
+   Q lines (round 4): one round trip after earlier calls in the same process that the line names;
+   the model has no state between calls, see eval_q / spec_q. *)
 
 let split_on c s = String.split_on_char c s
 
@@ -93,6 +95,51 @@ let git_text v ts =
   List.concat (List.map (fun (junk, fi, cs) ->
     List.concat (List.map (fun l -> l @ [n_of_int 10]) junk) @ M.x_unified v fi cs) ts)
 
+(* ---- Q lines: a round trip through one reader after a prelude of earlier calls.  The readers and
+   formatters keep nothing between calls, so the prelude has no effect on the round trip: the model
+   predicts it from the chunks alone.  The prelude's reader calls are predicted like T lines. *)
+let bytes_of_string s = List.init (String.length s) (fun i -> n_of_int (Char.code s.[i]))
+let git_junk = bytes_of_string "diff --git a/f b/f\nindex 83a4f1..9bc2d0 100644\n"
+
+exception Bad_prelude
+let prelude_items pre = String.split_on_char '&' pre
+let prelude_result v item =
+  let n = String.length item in
+  if n < 2 then raise Bad_prelude else
+  if item.[1] = ':' then begin
+    let t = unhex (String.sub item 2 (n - 2)) in
+    match item.[0] with
+    | 'n' -> (match M.x_read_normal t with M.ROk cs -> enc_patch None cs | M.RErr e -> "E:" ^ err_kind e)
+    | 'u' -> (match M.x_read_unified v t with M.ROk p -> enc_patch p.M.p_info p.M.p_chunks | M.RErr e -> "E:" ^ err_kind e)
+    | 'g' -> enc_patches (M.x_read_git v t)
+    | _ -> raise Bad_prelude
+  end else
+    match item.[0], int_of_string_opt (String.sub item 1 (n - 1)) with
+    | ('w' | 'x' | 'b'), Some k when k >= 0 && k <= 100000 -> "-"
+    | _ -> raise Bad_prelude
+
+let q_main v rk fi cs =
+  match rk with
+  | "n" ->
+    let n = M.x_normal cs in
+    (match M.x_read_normal n with
+     | M.ROk cs' -> Some (hex n, enc_patch None cs', refmt cs' (fun () -> M.x_normal cs'))
+     | M.RErr e -> Some (hex n, "E:" ^ err_kind e, "x"))
+  | "u" ->
+    let u = M.x_unified v fi cs in
+    (match M.x_read_unified v u with
+     | M.ROk p -> Some (hex u, enc_patch p.M.p_info p.M.p_chunks, refmt p.M.p_chunks (fun () -> M.x_unified v p.M.p_info p.M.p_chunks))
+     | M.RErr e -> Some (hex u, "E:" ^ err_kind e, "x"))
+  | "g" ->
+    let text = git_junk @ M.x_unified v fi cs in
+    Some (hex text, enc_patches (M.x_read_git v text), "-")
+  | _ -> None
+
+let eval_q v pre rk fi cs =
+  match (try Some (List.map (prelude_result v) (prelude_items pre)) with Bad_prelude -> None), q_main v rk fi cs with
+  | Some ps, Some (text, res, re) -> String.concat " " [text; res; re; String.concat "&" ps; "same"]
+  | _ -> "?"
+
 let eval_v v inp =
   match words inp with
   | [("D" | "S" | "A") as k; _l; _r; fi; cs] -> eval_d v k (dec_fi fi) (dec_chunks cs)
@@ -108,6 +155,7 @@ let eval_v v inp =
   | "G" :: _k :: rest ->
     let text = git_text v (triples rest) in
     hex text ^ " " ^ enc_patches (M.x_read_git v text)
+  | ["Q"; pre; rk; fi; cs] -> eval_q v pre rk (dec_fi fi) (dec_chunks cs)
   | _ -> "?"
 
 (* ---- timestamps (Z lines) ----
@@ -228,6 +276,44 @@ let spec_g inp out =
     Some (reason ^ (if known then " known=F5" else ""))
   | _ -> Some "bad output syntax"
 
+(* Q lines: the round trip must hold whatever was called before it in the same process, and a
+   patch an earlier call returned must not be changed by a later one.  Same clauses as D / G lines
+   for the one reader the line goes through; independent of the model (normalise functions only). *)
+let spec_q inp out =
+  match words inp, words out with
+  | ["Q"; _pre; rk; fis; css], [text; res; re; _pres; same] ->
+    let fi = dec_fi fis and cs = dec_chunks css in
+    if same <> "same" then
+      Some "a patch returned by an earlier reader call reads differently after a later call (results of separate calls share storage)" else
+    (match rk with
+     | "n" ->
+       let want = enc_patch None (M.x_normal_normalise cs) in
+       if res <> want then Some ("after earlier calls in the same process: Read(Normal(chunks)) = " ^ res ^ ", want " ^ want)
+       else if re <> text then Some "after earlier calls in the same process: re-formatting the patch read from the normal text changes the bytes"
+       else None
+     | "u" ->
+       if not (names_clean fi) then None else
+       (match check_unified_roundtrip fi cs text res re with
+        | None -> None
+        | Some reason ->
+          let known =
+            M.gen_facts_pinned && eval inp = out &&
+            (match words (eval_v only_f5 inp) with
+             | [t'; res'; re'; _; _] -> check_unified_roundtrip fi cs t' res' re' = None
+             | _ -> false) in
+          Some ("after earlier calls in the same process: " ^ reason ^ (if known then " known=F5" else "")))
+     | "g" ->
+       if cs = [] || fi = None || not (names_clean fi) then None else
+       let want = enc_patch (expected_fi fi cs) (M.x_unified_normalise cs) in
+       if res = want then None else
+       let known =
+         M.gen_facts_pinned && eval inp = out &&
+         (match words (eval_v only_f5 inp) with [_; res'; _; _; _] -> res' = want | _ -> false) in
+       Some ("after earlier calls in the same process: ReadGitPatch of the wrapped rendering = " ^ res ^ ", want " ^ want
+             ^ (if known then " known=F5" else ""))
+     | _ -> None)
+  | _ -> Some "bad output syntax"
+
 (* Failures attributed to a known finding are reported three times per finding and counted after
    that (KNOWNCOUNT lines at exit), so that the report budget of the main loop is left to
    anything that is NOT a known finding. *)
@@ -254,6 +340,11 @@ let well_formed inp =
       List.for_all (fun c -> ignore c.M.edits; true) (dec_chunks cs)
     | "G" :: k :: rest -> List.length (triples rest) = int_of_string k && List.length rest = 3 * int_of_string k
     | ["T"; _; t] -> ignore (unhex t); true
+    | ["Q"; pre; rk; fi; cs] ->
+      ignore (dec_fi fi);
+      List.for_all (fun c -> ignore c.M.edits; true) (dec_chunks cs)
+      && (rk = "n" || rk = "u" || rk = "g")
+      && (try ignore (List.map (prelude_result M.pinned) (prelude_items pre)); true with Bad_prelude -> false)
     | ["V"; _; l; r; t] -> ignore (unhexs l); ignore (unhexs r); ignore (unhex t); true
     | ["W"; l; r; cs; _; _; _] -> ignore (unhexs l); ignore (unhexs r); ignore (dec_chunks cs); true
     | ["Z"; s; n; o] -> ignore (int_of_string s); ignore (int_of_string o); let n = int_of_string n in n >= 0 && n < 1000000000
@@ -291,6 +382,7 @@ let spec prop inp out =
   | "D" :: _ -> spec_d inp out
   | "A" :: _ -> spec_a inp out
   | "G" :: _ -> spec_g inp out
+  | "Q" :: _ -> spec_q inp out
   | ["Z"; s; n; o] ->
     (* the property: default-format timestamps survive (for the times the layout can express) *)
     let s = int_of_string s and n = int_of_string n and o = int_of_string o in
